@@ -180,8 +180,11 @@ class ParseArrayLengths(argparse.Action):
 
     @staticmethod
     def parse(values: str | None) -> dict[str, list[int]]:
-        if not values:
+        if values is None or values == "":
             return {}
+
+        if not isinstance(values, str):
+            raise ValueError(f"invalid array lengths format: {values!r}")
 
         # syntax: --array-lengths name1=sizes1,name2=sizes2,...
         # where sizes is either a comma-separated list of integers enclosed in curly braces, or a single integer
